@@ -216,7 +216,7 @@ def root_cause(backend, mode, outcome, lines, frames, umsg, fclass, mverdict=Non
                 return "adf:compound-datatype-read-into-2-char-typed-buffer"
             if fclass in ("fileheader.sizeof", "node.header-sizeof-int-dim-halved"):
                 return "adf:header-type-size-vs-untranslated-copy"
-        if not fns and mode == "walk" and mverdict in SITE_KEY and kind in ("stack-buffer-overflow", "stack-overflow", "SEGV"):
+        if not fns and mverdict in SITE_KEY and kind in ("stack-buffer-overflow", "stack-overflow", "SEGV"):
             return SITE_KEY[mverdict]                   # the stack was smashed: the model names the buffer
     return "%s:%s@%s:%s" % (backend, kind, top, fclass)
 
@@ -701,7 +701,8 @@ def run(ck):
         return dict((w["file"], b) for w, b in zip(ws, out))
 
     state, how = {}, {}
-    for fl in FLAGS:
+    # a switch whose witness is masked by another repair is looked at after that one
+    for fl in ["snt", "dct", "link", "nest", "fmt", "tag", "rtype", "dtov", "dim", "sizes", "rad", "short"]:
         ws = [w for w in mw if w["flag"] == fl]
         s0 = dict(state); s0[fl] = False
         s1 = dict(state); s1[fl] = True
